@@ -42,6 +42,8 @@ func (m *chkMethod) call(arg string) string {
 		return fmt.Sprintf("%s.%s(%s)", m.owner, m.name, arg)
 	case "instance":
 		return fmt.Sprintf("%s(%s).%s(%s)", m.owner, arg, m.name, arg)
+	case "singleton":
+		return fmt.Sprintf("%s.%s(%s)", m.owner, m.name, arg)
 	}
 	return fmt.Sprintf("%s(%s)", m.name, arg)
 }
@@ -154,7 +156,7 @@ func (g *chkGen) body(m *chkMethod, errKind string) string {
 	if m.partner != "" {
 		var p *chkMethod
 		for _, o := range g.methods {
-			if o.name == m.partner && o.owner == m.owner {
+			if o.name == m.partner && o.owner == m.owner && o.kind == m.kind {
 				p = o
 			}
 		}
@@ -190,6 +192,20 @@ func genCheckerProgram(r *Rand, maxMethods int) (string, int, int) {
 		}
 		g.methods = append(g.methods, m)
 	}
+	// singleton methods that share their name with an instance method of the same class
+	// (call sites of both are bound statically, possibly deferred: they must not be mixed up)
+	for _, m := range append([]*chkMethod{}, g.methods...) {
+		if m.kind == "instance" && r.Chance(0.3) {
+			dup := false
+			for _, o := range g.methods {
+				dup = dup || (o.kind == "singleton" && o.owner == m.owner && o.name == m.name)
+			}
+			if !dup {
+				g.methods = append(g.methods, &chkMethod{name: m.name, owner: m.owner, kind: "singleton", level: r.Range(0, 4)})
+			}
+		}
+	}
+	nMethods = len(g.methods)
 	// recursion: self recursion and mutual pairs (same owner and kind)
 	for i, m := range g.methods {
 		if m.partner != "" {
@@ -242,6 +258,23 @@ func genCheckerProgram(r *Rand, maxMethods int) (string, int, int) {
 				fmt.Fprintf(&b, "  def %s(x: Int): Int\n%s  end\n", m.name, g.body(m, errAt[i]))
 			}
 		}
+		if kind == "instance" {
+			open := false
+			for _, i := range order {
+				m := g.methods[i]
+				if m.kind == "singleton" && m.owner == owner && !emitted[i] {
+					emitted[i] = true
+					if !open {
+						b.WriteString("  singleton\n")
+						open = true
+					}
+					fmt.Fprintf(&b, "  def %s(x: Int): Int\n%s  end\n", m.name, g.body(m, errAt[i]))
+				}
+			}
+			if open {
+				b.WriteString("  end\n")
+			}
+		}
 		b.WriteString("end\n")
 	}
 	for _, i := range order {
@@ -252,6 +285,8 @@ func genCheckerProgram(r *Rand, maxMethods int) (string, int, int) {
 		if m.kind == "top" {
 			emitted[i] = true
 			fmt.Fprintf(&b, "def %s(x: Int): Int\n%send\n", m.name, g.body(m, errAt[i]))
+		} else if m.kind == "singleton" {
+			emitOwner("instance", m.owner)
 		} else {
 			emitOwner(m.kind, m.owner)
 		}
@@ -410,6 +445,7 @@ type chkOutcome struct {
 	Err      string
 	Panic    string
 	Compiled bool
+	Ticks    int64
 }
 
 func diagStrings(c *checker.Checker, src string) (*vm.BytecodeFunction, []string, bool) {
@@ -430,7 +466,7 @@ func chkReference(t *testing.T, src string) (o chkOutcome) {
 	checker.MethodCheckConcurrencyLimit = 1
 	defer func() { checker.MethodCheckConcurrencyLimit = old }()
 	resetElk()
-	res := Simulate(t, simhook.Config{Strategy: "nonpreemptive", Seed: 1, EndOnMain: true, MaxTicks: 200_000_000}, SimOpts{Pool: 1, Queue: 64}, func(e *Env) {
+	res := Simulate(t, simhook.Config{Strategy: "nonpreemptive", Seed: 1, EndOnMain: true, MaxTicks: 15_000_000}, SimOpts{Pool: 1, Queue: 64}, func(e *Env) {
 		defer func() {
 			if r := recover(); r != nil {
 				o.Panic = fmt.Sprint(r)
@@ -452,6 +488,7 @@ func chkReference(t *testing.T, src string) (o chkOutcome) {
 	if res.Outcome != "ok" && o.Panic == "" {
 		o.Panic = "reference run ended with " + res.Outcome + ": " + res.PanicVal
 	}
+	o.Ticks = res.Ticks
 	return o
 }
 
@@ -477,6 +514,13 @@ func (*c11Engine) Execute(t *testing.T, c *Case) *Verdict {
 	var bodyPanic string
 	cfg := c.Sched
 	cfg.EndOnMain = true
+	// the step limit is a harness bound, not part of the property: the perturbed run gets
+	// four times what the reference needed (preemption points inside critical functions
+	// cost ticks the non-preemptive reference also pays, so the factor is generous); a run
+	// that still does not finish really differs from the reference
+	if need := 4*ref.Ticks + 20_000_000; cfg.MaxTicks < need {
+		cfg.MaxTicks = need
+	}
 	res := Simulate(t, cfg, SimOpts{Pool: 1, Queue: 64}, func(e *Env) {
 		defer func() {
 			if r := recover(); r != nil {
